@@ -64,6 +64,7 @@ impl Prop for C06 {
             controllers: 1,
             tree,
             plain488: false,
+            no_mav: false,
         };
         let mut t = base_trace("C06", seed, run, "arity", cfg.clone());
         let tc = TreeCtx::new(&cfg.tree);
